@@ -375,6 +375,9 @@ fn format(opt: opt::Opt) -> Result<i32> {
                         Some(ErrorFileWrapper { file, error }) => {
                             match error.downcast_ref::<stylua_lib::Error>() {
                                 Some(stylua_lib::Error::ParseError(err)) => {
+                                    // This path does not go through the logger, so it has to flag the failure itself
+                                    EXIT_CODE.store(2, Ordering::SeqCst);
+
                                     let structured_err =
                                         convert_parse_error_to_json(file, err.to_vec());
                                     // Force write to stderr directly
